@@ -74,6 +74,8 @@ func initOnly(p *Prog) map[*ssa.Function]bool {
 func runC17(p *Prog, r *Report) {
 	r.Explain = append(r.Explain, "R-GLOBAL: no store, map update, copy/append destination, delete or known stdlib mutator targets a package-level variable or memory derived from one (P-ORG origin tracking, field-based heap) in any function that can run after package initialisation.")
 	ruleGlobal(p, r)
+	r.Explain = append(r.Explain, "R-POOL: a function that takes an object out of a sync.Pool and puts it back returns nothing derived from it (P-ORG with the Get results as roots); there is no pool in the tree today, the rule has a positive control.")
+	rulePool(p, r, 0)
 	r.Explain = append(r.Explain, "R-FONT: with every value of type *font.Font as root, no such mutation targets font-derived memory in any function reachable from the exported API without entering a constructor (a function returning *font.Font); this subsumes storing a per-goroutine object into a shared font (R-ESC).")
 	ruleFont(p, r, fontCfg{pkg: "font", typ: "Font"})
 	ruleNoUnsafe(p, r, nil)
@@ -437,9 +439,69 @@ func ruleFont(p *Prog, r *Report, c fontCfg) {
 	}
 }
 
+// rulePool: a function that takes an object out of a sync.Pool and puts it back (directly or deferred) returns nothing
+// that is derived from that object: after the Put the next user of the pool owns the memory.
+func rulePool(p *Prog, r *Report, floor int) {
+	const rule = "R-POOL"
+	isPool := func(f *ssa.Function, name string) bool {
+		if f == nil || f.Name() != name || f.Signature.Recv() == nil {
+			return false
+		}
+		n := namedOf(f.Signature.Recv().Type())
+		return n != nil && n.Obj().Pkg() != nil && n.Obj().Pkg().Path() == "sync" && n.Obj().Name() == "Pool"
+	}
+	t := NewTaint(p)
+	t.rootValue = func(v ssa.Value) bool {
+		c, ok := v.(*ssa.Call)
+		return ok && c.Parent() != nil && p.inModule(fnPkg(c.Parent())) && isPool(c.Common().StaticCallee(), "Get")
+	}
+	t.Run()
+	n := 0
+	for _, f := range p.ModFns() {
+		gets, puts := 0, 0
+		for _, b := range f.Blocks {
+			for _, in := range b.Instrs {
+				if c, ok := in.(ssa.CallInstruction); ok {
+					if isPool(c.Common().StaticCallee(), "Get") {
+						gets++
+					}
+					if isPool(c.Common().StaticCallee(), "Put") {
+						puts++
+					}
+				}
+			}
+		}
+		if gets == 0 || puts == 0 {
+			continue
+		}
+		n++
+		key := p.FnName(f)
+		r.Instance(rule, key)
+		bad := ""
+		var path []string
+		for _, b := range f.Blocks {
+			for _, in := range b.Instrs {
+				ret, ok := in.(*ssa.Return)
+				if !ok {
+					continue
+				}
+				for _, res := range ret.Results {
+					if t.Is(res) {
+						bad = p.IPos(ret)
+						path = t.Trace(res)
+					}
+				}
+			}
+		}
+		r.Check(bad == "", rule, key, p.Pos(f.Pos()), "nothing derived from the pooled object is returned by the function that puts it back"+pref(bad), path...)
+	}
+	r.Floor(rule, n, floor)
+}
+
 func controlsC17(cp *Prog, r *Report) {
 	expectControl(r, "R-GLOBAL", func(cr *Report) { ruleGlobalIn(cp, cr, "shared") },
-		"shared.SumBad/shared.scratch", "shared.CachedBad/shared.table", "shared.TweakBad/shared.lookup")
+		"shared.SumBad/shared.scratch", "shared.CachedBad/shared.table", "shared.TweakBad/shared.lookup", "shared.BumpSharedBad/shared.shared")
+	expectControl(r, "R-POOL", func(cr *Report) { rulePool(cp, cr, 1) }, "shared.LoadPooledBad")
 	expectControl(r, "R-FONT", func(cr *Report) { ruleFont(cp, cr, fontCfg{pkg: "shared", typ: "Font"}) },
 		"(*shared.Face).AdvanceMemoBad", "shared.side", "(*shared.Font).lazy", "shared.resolveBad")
 	expectControl(r, "R-NOUNSAFE", func(cr *Report) {
